@@ -419,6 +419,10 @@ class P2PConnection:
             if time_diff < wait_time:
                 await asyncio.sleep(wait_time - time_diff)
 
+        if self._response_waiter.done():
+            # a telegram nobody waited for - eg. the answer to a request that failed
+            # on its acknowledge - is not the answer to this request
+            self._response_waiter = asyncio.get_event_loop().create_future()
         expected = payload.RESPONSE_TYPE if isinstance(payload, APCIRequest) else None
         await self.send_data(payload)
         response = await self._receive(expected)
